@@ -114,13 +114,13 @@ func (e *env) judgeAudience(idx int, op *Op, out *outcome) {
 			age := e.adv - s.AdvAt
 			capD := time.Duration(e.m.capSec) * time.Second
 			if age >= capD {
-				r.Violation("scope/served-past-ttl-cap",
+				r.Violation("scope/served-past-ttl-cap/"+origin(s),
 					fmt.Sprintf("scoped generation %d of %s served %v (virtual) after admission; cache_limit_ttl is %ds", g, s.Name, age, e.m.capSec), caseOf(e, idx, op, ex))
 			} else {
 				r.Count("scoped_serves_within_cap", 1)
 			}
 			if int(ttls[i]) > e.m.capSec {
-				r.Violation("scope/ttl-above-cap",
+				r.Violation("scope/ttl-above-cap/"+origin(s),
 					fmt.Sprintf("scoped generation %d of %s served from cache with TTL %d > cache_limit_ttl %ds", g, s.Name, ttls[i], e.m.capSec), caseOf(e, idx, op, ex))
 			}
 		}
@@ -159,6 +159,7 @@ func (e *env) judgeAudience(idx int, op *Op, out *outcome) {
 		}
 	}
 	if direct {
+		probed := false
 		e.mu.Lock()
 		for _, s := range e.log {
 			if s.OpIdx >= idx || s.Qtype != op.Q.Qtype || s.CD != op.Q.CD || !strings.EqualFold(s.Name, op.Q.Name) {
@@ -168,16 +169,22 @@ func (e *env) judgeAudience(idx int, op *Op, out *outcome) {
 			if eff == nil {
 				continue
 			}
-			life := time.Duration(parseRule(s.Name).ttl) * time.Second
-			if e.m.capSec > 0 && time.Duration(e.m.capSec)*time.Second < life {
-				life = time.Duration(e.m.capSec) * time.Second
-			}
-			if e.adv-s.AdvAt >= life {
-				continue
-			}
 			in := false
 			for _, id := range ids {
 				in = in || eff.contains(id)
+			}
+			life := time.Duration(parseRule(s.Name).ttl) * time.Second
+			capD := time.Duration(e.m.capSec) * time.Second
+			if in && !probed && capD > 0 && capD < life && e.adv-s.AdvAt >= capD && e.adv-s.AdvAt < life {
+				// the upstream TTL would still allow it; only the cap retired it
+				r.Count("scoped_expiry_probes_after_cap", 1)
+				probed = true
+			}
+			if capD > 0 && capD < life {
+				life = capD
+			}
+			if e.adv-s.AdvAt >= life {
+				continue
 			}
 			if !in {
 				r.Count("scoped_refusals_outside_scope", 1)
